@@ -1,6 +1,809 @@
-//! C08 — not implemented yet.
+//! C08 — A timelocked operation runs once, only after its delay and its predecessor.
+//!
+//! Target: `TimelockLib` (the `timelock` library functions 1:1) + two `Target` instances.
+//! Reference model: `id -> Unset | Scheduled(ready) | Done` plus `min_delay`, written from
+//! the property statement and the `# Errors` sections of the library docs.  After EVERY step
+//! the reported ledger/state/predicates of every pool id (plus a cancelled "ghost" id and a
+//! never-scheduled id), the minimum delay and the targets' invocation counters are compared
+//! with the model; a failed call must leave all of it unchanged.
+
+use crate::contracts::c08::{target::Target, timelock_lib::TimelockLib};
 use crate::engine::*;
+use crate::envx::{self, call, call_t};
+use crate::gen::pick;
+use proptest::prelude::*;
+use serde::{Deserialize, Serialize};
+use soroban_sdk::{Address, BytesN, Env, Symbol, Val, Vec as SVec};
+use std::collections::BTreeMap;
+use stellar_governance::timelock::{Operation, OperationState};
+
+pub const POOL: usize = 5;
+/// highest ledger the interpreter moves to (the host's TTL arithmetic overflows near u32::MAX)
+pub const LEDGER_CAP: u32 = u32::MAX - 20_000_000;
+
+#[derive(Clone, Debug, Serialize, Deserialize, PartialEq, Eq)]
+pub enum Pred {
+    None,
+    /// an earlier pool operation (index mapped onto 0..i; `None` for the first op)
+    Pool(u16),
+    /// an id that is never scheduled
+    Never,
+    /// the id of an operation that was scheduled and cancelled during set-up
+    Cancelled,
+    /// the id of the same operation without predecessor (closest realisable "self" link:
+    /// a literal self link would be a Keccak fixpoint)
+    SelfBase,
+}
+
+#[derive(Clone, Debug, Serialize, Deserialize)]
+pub struct OpSpec {
+    /// 0 = bump(x), 1 = flaky(x), 2 = pair(x, x+1)
+    pub func: u8,
+    pub arg: u8,
+    /// which of the two target instances
+    pub tgt: bool,
+    pub pred: Pred,
+    pub salt: u8,
+}
+
+#[derive(Clone, Debug, Serialize, Deserialize)]
+pub enum Delay {
+    Zero,
+    /// min_delay + d
+    MinPlus(i8),
+    K(u32),
+    /// u32::MAX - now + d   (d = +1 makes now + delay overflow u32)
+    ToMax(i8),
+    Max,
+}
+
+#[derive(Clone, Debug, Serialize, Deserialize)]
+pub enum Sel {
+    Idx(u16),
+    /// the operation most recently named by a schedule / advance-to-ready step
+    Last,
+    /// state-relative (resolved against the model; falls back to `Idx` when the class is empty):
+    /// k-th unset / pending / done operation
+    Unset(u16),
+    Pending(u16),
+    Done(u16),
+    /// k-th pending operation whose predecessor condition holds (none or Done)
+    Runnable(u16),
+    /// k-th pending operation whose predecessor has not been executed
+    Blocked(u16),
+    /// k-th not-yet-executed operation whose POOL predecessor is Done (next link of a chain)
+    Successor(u16),
+}
+
+#[derive(Clone, Debug, Serialize, Deserialize)]
+pub enum Adv {
+    K(u32),
+    /// to `ready(op) + d` (never backwards)
+    ToReady { op: Sel, d: i8 },
+}
+
+#[derive(Clone, Copy, Debug, Serialize, Deserialize)]
+pub enum Tamper {
+    Arg,
+    Salt,
+    Pred,
+    Func,
+    Target,
+}
+
+#[derive(Clone, Debug, Serialize, Deserialize)]
+pub enum IdSel {
+    Pool(Sel),
+    Ghost,
+    Never,
+}
+
+#[derive(Clone, Debug, Serialize, Deserialize)]
+pub enum Step {
+    Schedule { op: Sel, delay: Delay },
+    /// `raw` = `set_execute_operation` (marks done without calling the target);
+    /// `tamper` = present the operation with one field changed (an id that was never scheduled)
+    /// `at = Some(d)`: first move the ledger to `ready(op) + d` (if that is in the future)
+    Execute { op: Sel, raw: bool, tamper: Option<Tamper>, at: Option<i8> },
+    Cancel { id: IdSel },
+    SetMinDelay { v: u32 },
+    Advance(Adv),
+    /// read every getter / predicate entry point of one id individually
+    Probe { op: Sel },
+    /// hash_operation: determinism + one-field perturbation
+    HashProbe { op: Sel, field: Tamper },
+    /// script the targets' `flaky` entry point
+    Fail { on: bool },
+}
+
+#[derive(Clone, Debug, Serialize, Deserialize)]
+pub struct Case {
+    pub seq: u32,
+    pub min_delay: u32,
+    pub pool: Vec<OpSpec>,
+    pub steps: Vec<Step>,
+}
+
+// ---------------------------------------------------------------- strategy
+
+fn sel() -> BoxedStrategy<Sel> {
+    prop_oneof![3 => any::<u16>().prop_map(Sel::Idx), 2 => Just(Sel::Last)].boxed()
+}
+/// (idx, last, unset, pending, done, runnable, blocked, successor) weights
+fn sel_w(w: [u32; 8]) -> BoxedStrategy<Sel> {
+    prop_oneof![
+        w[0] => any::<u16>().prop_map(Sel::Idx),
+        w[1] => Just(Sel::Last),
+        w[2] => any::<u16>().prop_map(Sel::Unset),
+        w[3] => any::<u16>().prop_map(Sel::Pending),
+        w[4] => any::<u16>().prop_map(Sel::Done),
+        w[5] => any::<u16>().prop_map(Sel::Runnable),
+        w[6] => any::<u16>().prop_map(Sel::Blocked),
+        w[7] => any::<u16>().prop_map(Sel::Successor),
+    ]
+    .boxed()
+}
+
+fn tamper() -> BoxedStrategy<Tamper> {
+    prop_oneof![Just(Tamper::Arg), Just(Tamper::Salt), Just(Tamper::Pred), Just(Tamper::Func), Just(Tamper::Target)].boxed()
+}
+
+fn delay() -> BoxedStrategy<Delay> {
+    prop_oneof![
+        2 => Just(Delay::Zero),
+        16 => prop_oneof![1 => Just(-1i8), 4 => Just(0i8), 2 => Just(1i8)].prop_map(Delay::MinPlus),
+        6 => (0u32..10).prop_map(Delay::K),
+        1 => (-1i8..=1).prop_map(Delay::ToMax),
+        1 => Just(Delay::Max),
+    ]
+    .boxed()
+}
+
+fn step() -> BoxedStrategy<Step> {
+    prop_oneof![
+        10 => (sel_w([1, 1, 10, 1, 1, 0, 0, 3]), delay()).prop_map(|(op, delay)| Step::Schedule { op, delay }),
+        13 => (sel_w([1, 6, 1, 0, 1, 10, 2, 1]), proptest::bool::weighted(0.12), proptest::option::weighted(0.1, tamper()),
+              proptest::option::weighted(0.6, prop_oneof![Just(-1i8), Just(0), Just(0), Just(1)]))
+            .prop_map(|(op, raw, tamper, at)| Step::Execute { op, raw, tamper, at }),
+        2 => prop_oneof![8 => sel_w([2, 2, 1, 4, 1, 0, 0, 0]).prop_map(IdSel::Pool), 1 => Just(IdSel::Ghost), 1 => Just(IdSel::Never)]
+            .prop_map(|id| Step::Cancel { id }),
+        3 => prop_oneof![20 => 0u32..8, 1 => Just(1000u32), 1 => Just(u32::MAX)].prop_map(|v| Step::SetMinDelay { v }),
+        7 => prop_oneof![
+            2 => (0u32..12).prop_map(Adv::K),
+            5 => (sel_w([0, 8, 0, 1, 0, 4, 1, 2]), prop_oneof![Just(-1i8), Just(0), Just(0), Just(1)]).prop_map(|(op, d)| Adv::ToReady { op, d }),
+        ]
+        .prop_map(Step::Advance),
+        2 => sel().prop_map(|op| Step::Probe { op }),
+        1 => (sel(), tamper()).prop_map(|(op, field)| Step::HashProbe { op, field }),
+        1 => any::<bool>().prop_map(|on| Step::Fail { on }),
+    ]
+    .boxed()
+}
+
+fn op_spec() -> BoxedStrategy<OpSpec> {
+    let pred = prop_oneof![
+        9 => Just(Pred::None),
+        15 => any::<u16>().prop_map(Pred::Pool),
+        1 => Just(Pred::Never),
+        1 => Just(Pred::Cancelled),
+        1 => Just(Pred::SelfBase),
+    ];
+    (0u8..3, 0u8..3, any::<bool>(), pred, 0u8..3).prop_map(|(func, arg, tgt, pred, salt)| OpSpec { func, arg, tgt, pred, salt }).boxed()
+}
+
+fn strategy(tier: Tier) -> BoxedStrategy<Case> {
+    let max = tier.pick(35usize, 80usize);
+    (
+        prop_oneof![4 => 2u32..2000, 1 => Just(2u32), 1 => 1_000_000u32..2_000_000, 1 => (LEDGER_CAP - 3000)..(LEDGER_CAP - 1000)],
+        prop_oneof![6 => 0u32..6, 1 => 6u32..40],
+        proptest::collection::vec(op_spec(), POOL..=POOL),
+        // two concatenated vectors truncated to `max`: long histories are the rule, and both parts shrink by deletion
+        (proptest::collection::vec(step(), 0..=max), proptest::collection::vec(step(), 0..=max)),
+    )
+        .prop_map(move |(seq, min_delay, pool, (mut steps, more))| {
+            steps.extend(more);
+            steps.truncate(max);
+            Case { seq, min_delay, pool, steps }
+        })
+        .boxed()
+}
+
+// ---------------------------------------------------------------- model
+
+#[derive(Clone, Copy, Debug, PartialEq, Eq)]
+enum St {
+    Unset,
+    Sched(u32),
+    Done,
+}
+
+/// model-derived observation row `[ledger, state, exists, pending, ready, done]`
+fn derive(st: St, now: u32) -> [u32; 6] {
+    match st {
+        St::Unset => [0, OperationState::Unset as u32, 0, 0, 0, 0],
+        St::Sched(r) if r > now => [r, OperationState::Waiting as u32, 1, 1, 0, 0],
+        St::Sched(r) => [r, OperationState::Ready as u32, 1, 1, 1, 0],
+        St::Done => [1, OperationState::Done as u32, 1, 0, 0, 1],
+    }
+}
+
+struct World {
+    e: Env,
+    tl: Address,
+    tgts: [Address; 2],
+    ops: Vec<Operation>,
+    ids: Vec<BytesN<32>>,
+    ghost: Operation,
+    ghost_id: BytesN<32>,
+    never_id: BytesN<32>,
+    /// distinct (target index, function id, argument key) of the pool, for the counters
+    keys: Vec<(usize, u32, u32)>,
+}
+
+fn zero(e: &Env) -> BytesN<32> {
+    BytesN::from_array(e, &[0u8; 32])
+}
+
+fn fname(f: u8) -> &'static str {
+    match f {
+        0 => "bump",
+        1 => "flaky",
+        _ => "pair",
+    }
+}
+fn fargs(e: &Env, f: u8, x: u32) -> SVec<Val> {
+    if f == 2 {
+        args![e; x, x.wrapping_add(1)]
+    } else {
+        args![e; x]
+    }
+}
+fn fkey(f: u8, x: u32) -> (u32, u32) {
+    if f == 2 {
+        (2, x.wrapping_mul(1000).wrapping_add(x.wrapping_add(1)))
+    } else {
+        (f as u32, x)
+    }
+}
+
+fn hash(e: &Env, tl: &Address, op: &Operation) -> Result<BytesN<32>, Violation> {
+    call_t::<BytesN<32>>(e, tl, "hash_operation", args![e; op.clone()])
+        .map_err(|er| violation("C08/hash_operation/failed", format!("hash_operation failed: {er}")))
+}
+
+fn tampered(w: &World, case: &Case, i: usize, t: Tamper) -> Operation {
+    let e = &w.e;
+    let mut op = w.ops[i].clone();
+    let sp = &case.pool[i];
+    match t {
+        Tamper::Arg => op.args = fargs(e, sp.func, sp.arg as u32 + 7),
+        Tamper::Salt => {
+            let mut s = op.salt.to_array();
+            s[31] ^= 1;
+            op.salt = BytesN::from_array(e, &s);
+        }
+        Tamper::Pred => {
+            op.predecessor = if op.predecessor == zero(e) { BytesN::from_array(e, &[1u8; 32]) } else { zero(e) };
+        }
+        Tamper::Func => op.function = Symbol::new(e, if sp.func == 0 { "flaky" } else { "bump" }),
+        Tamper::Target => op.target = w.tgts[(!sp.tgt) as usize].clone(),
+    }
+    op
+}
+
+fn observe(w: &World) -> Result<(Vec<[u32; 6]>, u32, Vec<u32>, [u32; 2]), Violation> {
+    let e = &w.e;
+    let mut ids: SVec<BytesN<32>> = SVec::new(e);
+    for id in &w.ids {
+        ids.push_back(id.clone());
+    }
+    ids.push_back(w.ghost_id.clone());
+    ids.push_back(w.never_id.clone());
+    let d: SVec<SVec<u32>> =
+        call_t(e, &w.tl, "dump", args![e; ids]).map_err(|er| violation("C08/getters/failed", format!("bulk getter read failed: {er}")))?;
+    let n = w.ids.len() + 2;
+    ensure!(d.len() as usize == n + 1, "C08/getters/failed", "dump returned {} rows", d.len());
+    let mut rows = vec![];
+    for i in 0..n {
+        let r = d.get_unchecked(i as u32);
+        let mut a = [0u32; 6];
+        for (k, slot) in a.iter_mut().enumerate() {
+            *slot = r.get(k as u32).unwrap_or(u32::MAX);
+        }
+        rows.push(a);
+    }
+    let min = d.get_unchecked(n as u32).get(0).unwrap_or(u32::MAX);
+    // target counters
+    let mut counts = vec![];
+    let mut totals = [0u32; 2];
+    for t in 0..2 {
+        let mut keys: SVec<(u32, u32)> = SVec::new(e);
+        for (ti, f, x) in &w.keys {
+            if *ti == t {
+                keys.push_back((*f, *x));
+            }
+        }
+        let r: SVec<u32> = call_t(e, &w.tgts[t], "report", args![e; keys.clone()])
+            .map_err(|er| violation("C08/harness/target-report", format!("target report failed: {er}")))?;
+        for k in 0..keys.len() {
+            counts.push(r.get(k).unwrap_or(u32::MAX));
+        }
+        totals[t] = r.get(keys.len()).unwrap_or(u32::MAX);
+    }
+    Ok((rows, min, counts, totals))
+}
+
+pub fn run(case: &Case, ctx: &mut Ctx) -> R {
+    ensure!(case.pool.len() == POOL && case.seq >= 2, "C08/harness/ill-formed-case", "pool {} seq {}", case.pool.len(), case.seq);
+    let e = envx::new_env(case.seq, envx::BIG_TTL);
+    let tl = e.register(TimelockLib, (case.min_delay,));
+    let tgts = [e.register(Target, ()), e.register(Target, ())];
+    let never_id = BytesN::from_array(&e, &[0xEE; 32]);
+    let ghost =
+        Operation { target: tgts[0].clone(), function: Symbol::new(&e, "bump"), args: args![&e; 99u32], predecessor: zero(&e), salt: BytesN::from_array(&e, &[0xC0; 32]) };
+    let ghost_id = hash(&e, &tl, &ghost)?;
+
+    // ---- build the pool (ids via the entry point, in index order)
+    let mut ops: Vec<Operation> = vec![];
+    let mut ids: Vec<BytesN<32>> = vec![];
+    let mut pred_of: Vec<Option<usize>> = vec![]; // Some(j) = pool predecessor
+    let mut pred_ok_never: Vec<bool> = vec![]; // predecessor that can never be Done
+    let mut depth: Vec<u32> = vec![];
+    for (i, sp) in case.pool.iter().enumerate() {
+        let mut salt = [0u8; 32];
+        salt[0] = i as u8 + 1;
+        salt[1] = sp.salt;
+        let mut op = Operation {
+            target: tgts[sp.tgt as usize].clone(),
+            function: Symbol::new(&e, fname(sp.func)),
+            args: fargs(&e, sp.func, sp.arg as u32),
+            predecessor: zero(&e),
+            salt: BytesN::from_array(&e, &salt),
+        };
+        let (pj, never) = match &sp.pred {
+            Pred::None => (None, false),
+            Pred::Pool(s) if i > 0 => {
+                let j = pick(*s, i);
+                op.predecessor = ids[j].clone();
+                (Some(j), false)
+            }
+            Pred::Pool(_) => (None, false),
+            Pred::Never => {
+                op.predecessor = never_id.clone();
+                ctx.class("pred_never_scheduled");
+                (None, true)
+            }
+            Pred::Cancelled => {
+                op.predecessor = ghost_id.clone();
+                ctx.class("pred_cancelled");
+                (None, true)
+            }
+            Pred::SelfBase => {
+                op.predecessor = hash(&e, &tl, &op)?;
+                ctx.class("pred_self_base");
+                (None, true)
+            }
+        };
+        depth.push(match pj {
+            Some(j) => depth[j] + 1,
+            None => 0,
+        });
+        pred_of.push(pj);
+        pred_ok_never.push(never);
+        let id = hash(&e, &tl, &op)?;
+        ensure!(!ids.contains(&id) && id != ghost_id && id != never_id, "C08/hash_operation/collision", "pool op {i} collides with another id");
+        ids.push(id);
+        ops.push(op);
+    }
+    let mut keys: Vec<(usize, u32, u32)> = vec![(0, 0, 99)];
+    for sp in &case.pool {
+        let (f, x) = fkey(sp.func, sp.arg as u32);
+        let k = (sp.tgt as usize, f, x);
+        if !keys.contains(&k) {
+            keys.push(k);
+        }
+    }
+    keys.sort();
+    let w = World { e: e.clone(), tl: tl.clone(), tgts, ops, ids, ghost, ghost_id, never_id, keys };
+
+    // ---- set-up: the ghost operation is scheduled and cancelled
+    let r = call(&e, &tl, "schedule_operation", args![&e; w.ghost.clone(), case.min_delay]);
+    ensure!(r.is_ok(), "C08/schedule/refused-valid", "set-up: scheduling the ghost op with delay = min_delay failed: {:?}", r);
+    let r = call(&e, &tl, "cancel_operation", args![&e; w.ghost_id.clone()]);
+    ensure!(r.is_ok(), "C08/cancel/refused-pending", "set-up: cancelling the pending ghost op failed: {:?}", r);
+
+    // ---- model
+    let mut st = [St::Unset; POOL];
+    let mut min_delay = case.min_delay;
+    let mut counts: BTreeMap<(usize, u32, u32), u32> = w.keys.iter().map(|k| (*k, 0)).collect();
+    let mut failing = false;
+    let mut last: usize = 0;
+    let mut min_changed_since_sched = [false; POOL];
+    let (mut saw_m1, mut saw_at, mut saw_chain, mut saw_min_between, mut saw_blocked) = (false, false, false, false, false);
+
+    let check = |st: &[St; POOL], min_delay: u32, counts: &BTreeMap<(usize, u32, u32), u32>, what: &str| -> R {
+        let now = envx::seq(&w.e);
+        let (rows, min, cs, totals) = observe(&w)?;
+        for i in 0..POOL {
+            let want = derive(st[i], now);
+            ensure!(
+                rows[i] == want,
+                "C08/state/mismatch",
+                "after {what} at ledger {now}: op {i} model {:?} => [ledger,state,exists,pending,ready,done] = {:?}, contract reports {:?}",
+                st[i],
+                want,
+                rows[i]
+            );
+        }
+        ensure!(rows[POOL] == derive(St::Unset, now), "C08/state/cancelled-not-unset", "after {what}: cancelled ghost id reports {:?}", rows[POOL]);
+        ensure!(rows[POOL + 1] == derive(St::Unset, now), "C08/state/never-scheduled-not-unset", "after {what}: never-scheduled id reports {:?}", rows[POOL + 1]);
+        ensure!(min == min_delay, "C08/min_delay/mismatch", "after {what}: get_min_delay {min}, model {min_delay}");
+        let mut want_tot = [0u32; 2];
+        let mut k = 0;
+        for t in 0..2 {
+            for key in w.keys.iter().filter(|k| k.0 == t) {
+                let want = counts[key];
+                want_tot[t] += want;
+                ensure!(
+                    cs[k] == want,
+                    "C08/target/count-mismatch",
+                    "after {what}: target {t} saw {} invocations of (fn {}, arg {}), successful executes in the model: {want}",
+                    cs[k],
+                    key.1,
+                    key.2
+                );
+                k += 1;
+            }
+        }
+        ensure!(totals == want_tot, "C08/target/unexpected-invocation", "after {what}: target totals {:?}, model {:?}", totals, want_tot);
+        Ok(())
+    };
+    check(&st, min_delay, &counts, "set-up")?;
+
+    let pred_of_c = pred_of.clone();
+    let pred_never_c = pred_ok_never.clone();
+    let resolve = |s: &Sel, last: usize, st: &[St; POOL]| -> usize {
+        let pred_done = |i: usize| match (pred_of_c[i], pred_never_c[i]) {
+            (_, true) => false,
+            (Some(j), _) => st[j] == St::Done,
+            (None, _) => true,
+        };
+        let class = |x: u16, f: &dyn Fn(usize) -> bool| -> usize {
+            let v: Vec<usize> = (0..POOL).filter(|i| f(*i)).collect();
+            if v.is_empty() {
+                pick(x, POOL)
+            } else {
+                v[pick(x, v.len())]
+            }
+        };
+        match s {
+            Sel::Idx(x) => pick(*x, POOL),
+            Sel::Last => last,
+            Sel::Unset(x) => class(*x, &|i| st[i] == St::Unset),
+            Sel::Pending(x) => class(*x, &|i| matches!(st[i], St::Sched(_))),
+            Sel::Done(x) => class(*x, &|i| st[i] == St::Done),
+            Sel::Runnable(x) => {
+                if (0..POOL).any(|i| matches!(st[i], St::Sched(_)) && pred_done(i)) {
+                    class(*x, &|i| matches!(st[i], St::Sched(_)) && pred_done(i))
+                } else {
+                    class(*x, &|i| matches!(st[i], St::Sched(_)))
+                }
+            }
+            Sel::Blocked(x) => class(*x, &|i| matches!(st[i], St::Sched(_)) && !pred_done(i)),
+            Sel::Successor(x) => class(*x, &|i| st[i] != St::Done && matches!(pred_of_c[i], Some(j) if st[j] == St::Done)),
+        }
+    };
+
+    for (n, stp) in case.steps.iter().enumerate() {
+        let now = envx::seq(&e);
+        let what = format!("step {n} {:?}", stp);
+        match stp {
+            Step::Schedule { op, delay } => {
+                let i = resolve(op, last, &st);
+                last = i;
+                let d: u32 = match delay {
+                    Delay::Zero => 0,
+                    Delay::MinPlus(k) => (min_delay as i64 + *k as i64).clamp(0, u32::MAX as i64) as u32,
+                    Delay::K(k) => *k,
+                    Delay::ToMax(k) => ((u32::MAX - now) as i64 + *k as i64).clamp(0, u32::MAX as i64) as u32,
+                    Delay::Max => u32::MAX,
+                };
+                let want_ok = st[i] == St::Unset && d >= min_delay;
+                let r = call_t::<BytesN<32>>(&e, &tl, "schedule_operation", args![&e; w.ops[i].clone(), d]);
+                ctx.op(r.is_ok());
+                match (&r, want_ok) {
+                    (Ok(id), true) => {
+                        ensure!(*id == w.ids[i], "C08/schedule/id-differs-from-hash_operation", "{what}: returned id differs from hash_operation of the same fields");
+                        let ready = now.saturating_add(d);
+                        if (now as u64) + (d as u64) > u32::MAX as u64 {
+                            ctx.class("schedule_saturated");
+                        }
+                        if d == min_delay {
+                            ctx.class("schedule_at_min_delay");
+                        }
+                        st[i] = St::Sched(ready);
+                        min_changed_since_sched[i] = false;
+                        ctx.class("schedule_ok");
+                    }
+                    (Err(_), false) => {
+                        if st[i] == St::Done {
+                            ctx.class("reschedule_done_refused");
+                        } else if st[i] != St::Unset {
+                            ctx.class("reschedule_pending_refused");
+                        } else {
+                            ctx.class("schedule_short_delay_refused");
+                        }
+                    }
+                    (Ok(_), false) => {
+                        if st[i] == St::Done {
+                            bail!("C08/schedule/done-rescheduled", "{what}: op {i} is Done but was scheduled again")
+                        } else if st[i] != St::Unset {
+                            bail!("C08/schedule/pending-rescheduled", "{what}: op {i} is {:?} but was scheduled again", st[i])
+                        } else {
+                            bail!("C08/schedule/delay-below-min-accepted", "{what}: delay {d} < min_delay {min_delay} accepted")
+                        }
+                    }
+                    (Err(er), true) => bail!("C08/schedule/refused-valid", "{what}: op {i} Unset, delay {d} >= min_delay {min_delay}, but refused: {er}"),
+                }
+            }
+            Step::Execute { op, raw, tamper, at } => {
+                let i = resolve(op, last, &st);
+                last = i;
+                if let (Some(d), St::Sched(r)) = (at, st[i]) {
+                    let to = (r as i64 + *d as i64).clamp(0, u32::MAX as i64) as u32;
+                    if to > now && to <= LEDGER_CAP {
+                        envx::set_seq(&e, to);
+                    }
+                }
+                let now = envx::seq(&e);
+                let sp = &case.pool[i];
+                let (oper, t_ok) = match tamper {
+                    Some(t) => (tampered(&w, case, i, *t), false),
+                    None => (w.ops[i].clone(), true),
+                };
+                let pred_done = match (pred_of[i], pred_ok_never[i]) {
+                    (_, true) => false,
+                    (Some(j), _) => st[j] == St::Done,
+                    (None, _) => true,
+                };
+                let ready = matches!(st[i], St::Sched(r) if r <= now);
+                let target_fails = !*raw && sp.func == 1 && failing;
+                let want_ok = t_ok && ready && pred_done && !target_fails;
+                if t_ok {
+                    if let St::Sched(r) = st[i] {
+                        if r == now.wrapping_add(1) {
+                            saw_m1 = true;
+                            ctx.class("exec_attempt_at_ready_minus_1");
+                        } else if r == now {
+                            saw_at = true;
+                            ctx.class("exec_attempt_at_ready");
+                        } else if r < now {
+                            ctx.class("exec_attempt_after_ready");
+                        } else {
+                            ctx.class("exec_attempt_waiting_far");
+                        }
+                    }
+                    if st[i] == St::Done {
+                        ctx.class("exec_attempt_on_done");
+                    }
+                    if st[i] == St::Unset {
+                        ctx.class("exec_attempt_on_unset");
+                    }
+                    if ready && !pred_done {
+                        saw_blocked = true;
+                        ctx.class("exec_blocked_by_predecessor");
+                    }
+                    if ready && pred_done && target_fails {
+                        ctx.class("exec_target_fails");
+                    }
+                } else {
+                    ctx.class("exec_tampered_fields");
+                }
+                let f = if *raw { "set_execute_operation" } else { "execute_operation" };
+                let r = call(&e, &tl, f, args![&e; oper]);
+                ctx.op(r.is_ok());
+                match (&r, want_ok) {
+                    (Ok(v), true) => {
+                        st[i] = St::Done;
+                        if !*raw {
+                            let (fk, x) = fkey(sp.func, sp.arg as u32);
+                            let c = counts.get_mut(&(sp.tgt as usize, fk, x)).unwrap();
+                            *c += 1;
+                            let ret = <u32 as soroban_sdk::TryFromVal<Env, Val>>::try_from_val(&e, v).ok();
+                            ensure!(ret == Some(*c), "C08/execute/return-value", "{what}: execute_operation returned {:?}, the target returned {}", ret, *c);
+                            ctx.class("execute_ok");
+                        } else {
+                            ctx.class("set_execute_ok");
+                        }
+                        if depth[i] >= 1 {
+                            saw_chain = true;
+                            ctx.class("execute_ok_with_pool_predecessor");
+                        }
+                        if depth[i] >= 2 {
+                            ctx.class("execute_ok_chain_depth_ge_2");
+                        }
+                        if min_changed_since_sched[i] {
+                            saw_min_between = true;
+                            ctx.class("execute_ok_after_min_delay_change");
+                        }
+                    }
+                    (Err(_), false) => {}
+                    (Ok(_), false) => {
+                        if !t_ok {
+                            bail!("C08/execute/other-fields-accepted", "{what}: an operation with a changed field ({:?}) was executed although only the original was scheduled", tamper)
+                        }
+                        match st[i] {
+                            St::Done => bail!("C08/execute/re-executed", "{what}: op {i} was already Done"),
+                            St::Unset => bail!("C08/execute/unset-executed", "{what}: op {i} is not scheduled"),
+                            St::Sched(r) if r > now => bail!("C08/execute/before-ready", "{what}: ready ledger {r} > now {now}"),
+                            _ if !pred_done => bail!("C08/execute/predecessor-not-done", "{what}: predecessor of op {i} has not been executed"),
+                            _ => bail!("C08/execute/target-failure-swallowed", "{what}: the target call failed but execute succeeded"),
+                        }
+                    }
+                    (Err(er), true) => bail!("C08/execute/refused-ready", "{what}: op {i} Ready (ready {:?} <= now {now}), predecessor done, but refused: {er}", st[i]),
+                }
+            }
+            Step::Cancel { id } => {
+                let (idv, idx): (BytesN<32>, Option<usize>) = match id {
+                    IdSel::Pool(s) => {
+                        let i = resolve(s, last, &st);
+                        (w.ids[i].clone(), Some(i))
+                    }
+                    IdSel::Ghost => (w.ghost_id.clone(), None),
+                    IdSel::Never => (w.never_id.clone(), None),
+                };
+                let cur = idx.map(|i| st[i]).unwrap_or(St::Unset);
+                let want_ok = matches!(cur, St::Sched(_));
+                let r = call(&e, &tl, "cancel_operation", args![&e; idv]);
+                ctx.op(r.is_ok());
+                match (&r, want_ok) {
+                    (Ok(_), true) => {
+                        if matches!(cur, St::Sched(rd) if rd <= now) {
+                            ctx.class("cancel_ready");
+                        } else {
+                            ctx.class("cancel_waiting");
+                        }
+                        st[idx.unwrap()] = St::Unset;
+                    }
+                    (Err(_), false) => {
+                        if cur == St::Done {
+                            ctx.class("cancel_done_refused");
+                        }
+                    }
+                    (Ok(_), false) => {
+                        if cur == St::Done {
+                            bail!("C08/cancel/done-cancelled", "{what}: a Done operation was cancelled")
+                        } else {
+                            bail!("C08/cancel/unset-cancelled", "{what}: an unscheduled id was cancelled")
+                        }
+                    }
+                    (Err(er), true) => bail!("C08/cancel/refused-pending", "{what}: op is pending ({:?}) but cancel was refused: {er}", cur),
+                }
+            }
+            Step::SetMinDelay { v } => {
+                let r = call(&e, &tl, "set_min_delay", args![&e; *v]);
+                ctx.op(r.is_ok());
+                ensure!(r.is_ok(), "C08/set_min_delay/failed", "{what}: {:?}", r);
+                if *v != min_delay {
+                    for (i, s) in st.iter().enumerate() {
+                        if matches!(s, St::Sched(_)) {
+                            min_changed_since_sched[i] = true;
+                        }
+                    }
+                }
+                min_delay = *v;
+            }
+            Step::Advance(a) => match a {
+                Adv::K(k) => {
+                    if now.saturating_add(*k) <= LEDGER_CAP {
+                        envx::advance(&e, *k)
+                    }
+                }
+                Adv::ToReady { op, d } => {
+                    let i = resolve(op, last, &st);
+                    last = i;
+                    if let St::Sched(r) = st[i] {
+                        let to = (r as i64 + *d as i64).clamp(0, u32::MAX as i64) as u32;
+                        // the test host refuses TTL arithmetic close to u32::MAX ("ledger is mis-configured"):
+                        // ledgers beyond LEDGER_CAP are outside the explorable domain
+                        if to > now && to <= LEDGER_CAP {
+                            envx::set_seq(&e, to);
+                        } else if to > LEDGER_CAP {
+                            ctx.class("advance_beyond_ledger_cap_skipped");
+                        }
+                    }
+                }
+            },
+            Step::Probe { op } => {
+                let i = resolve(op, last, &st);
+                let want = derive(st[i], now);
+                let id = w.ids[i].clone();
+                let g = |f: &str| -> Result<u32, Violation> {
+                    let v = call(&e, &tl, f, args![&e; id.clone()]).map_err(|er| violation("C08/getters/failed", format!("{f} failed: {er}")))?;
+                    if let Ok(b) = <bool as soroban_sdk::TryFromVal<Env, Val>>::try_from_val(&e, &v) {
+                        return Ok(b as u32);
+                    }
+                    if let Ok(s) = <OperationState as soroban_sdk::TryFromVal<Env, Val>>::try_from_val(&e, &v) {
+                        if f == "get_operation_state" {
+                            return Ok(s as u32);
+                        }
+                    }
+                    <u32 as soroban_sdk::TryFromVal<Env, Val>>::try_from_val(&e, &v).map_err(|_| violation("C08/getters/failed", format!("{f}: unexpected return type")))
+                };
+                let got = [
+                    g("get_operation_ledger")?,
+                    g("get_operation_state")?,
+                    g("operation_exists")?,
+                    g("is_operation_pending")?,
+                    g("is_operation_ready")?,
+                    g("is_operation_done")?,
+                ];
+                ensure!(got == want, "C08/state/entry-point-mismatch", "{what}: entry points report {:?}, model {:?} => {:?}", got, st[i], want);
+                let m = call_t::<u32>(&e, &tl, "get_min_delay", args![&e]).map_err(|er| violation("C08/getters/failed", er))?;
+                ensure!(m == min_delay, "C08/min_delay/mismatch", "{what}: get_min_delay {m}, model {min_delay}");
+                ctx.class("probe");
+            }
+            Step::HashProbe { op, field } => {
+                let i = resolve(op, last, &st);
+                let again = hash(&e, &tl, &w.ops[i])?;
+                ensure!(again == w.ids[i], "C08/hash_operation/not-deterministic", "{what}: same fields hashed to a different id");
+                let t = tampered(&w, case, i, *field);
+                let tid = hash(&e, &tl, &t)?;
+                ensure!(tid != w.ids[i], "C08/hash_operation/field-not-bound", "{what}: changing {:?} does not change the id", field);
+                ensure!(!w.ids.contains(&tid), "C08/hash_operation/collision", "{what}: perturbed op collides with a pool id");
+                ctx.class("hash_probe");
+            }
+            Step::Fail { on } => {
+                for t in &w.tgts {
+                    let r = call(&e, t, "set_fail", args![&e; *on]);
+                    ensure!(r.is_ok(), "C08/harness/set_fail", "{:?}", r);
+                }
+                failing = *on;
+            }
+        }
+        check(&st, min_delay, &counts, &what)?;
+    }
+    if saw_m1 && saw_at && saw_chain && saw_min_between {
+        ctx.nontrivial = true;
+        ctx.class("nontrivial");
+    }
+    if saw_blocked {
+        ctx.class("case_with_blocked_predecessor");
+    }
+    Ok(())
+}
 
 pub fn property() -> Property {
-    Property { id: "C08", rule: "", subs: vec![], floors: vec![], assumptions: vec![] }
+    Property {
+        id: "C08",
+        rule: "case = (start ledger >= 2, initial min_delay, pool of 5 operations with predecessor in none | earlier pool op | never-scheduled id | cancelled id | own base id, \
+               history of <= 35 (thorough 80) schedule / execute / set_execute / cancel / set_min_delay / advance-to(ready-1|ready|ready+1|k) / probe steps, state compared with the \
+               reference model after every step); non-trivial = the history contains an execute attempt at ready-1 AND one at ready AND a successful execute of an op whose pool \
+               predecessor was executed first AND a successful execute with a set_min_delay change between its schedule and its execute; distinct = distinct serialised case",
+        // (own Gen value instead of gen_sub: more shrink iterations, the histories are long)
+        subs: vec![Box::new(Gen::<Case> { name: "history", quick: 3000, thorough: 50000, strategy, run, max_shrink_iters: 3000 })],
+        // <= 1/10 of the class counts measured over seeds 0..5 (quick); thorough = 15x quick
+        floors: vec![
+            ("nontrivial", 10, 150),
+            ("execute_ok", 300, 4500),
+            ("execute_ok_with_pool_predecessor", 80, 1200),
+            ("execute_ok_after_min_delay_change", 120, 1800),
+            ("exec_attempt_at_ready", 300, 4500),
+            ("exec_attempt_at_ready_minus_1", 120, 1800),
+            ("exec_blocked_by_predecessor", 500, 7500),
+            ("exec_target_fails", 35, 500),
+            ("exec_tampered_fields", 250, 3700),
+            ("cancel_ready", 80, 1200),
+            ("cancel_waiting", 80, 1200),
+            ("cancel_done_refused", 30, 450),
+            ("reschedule_done_refused", 140, 2100),
+            ("schedule_saturated", 100, 1500),
+            ("hash_probe", 200, 3000),
+        ],
+        assumptions: vec![
+            "Soroban native test host (storage, rollback of failed invocations, cross-contract calls) is trusted",
+            "Keccak-256 collision / fixpoint resistance: distinct field tuples have distinct ids; a literal self-predecessor is not constructible",
+            "ledger sequences >= 2 (0 and 1 are the state sentinels)",
+        ],
+    }
 }
